@@ -306,7 +306,10 @@ class CodeBase:
         """
         Iterate over all files in the code base by walking each directory.
         """
+        # The directories may overlap; each file is listed once.
+        seen = set()
         for directory in self.directories:
             for path in Path(directory).rglob("*"):
-                if self.__contains__(path):
+                if str(path) not in seen and self.__contains__(path):
+                    seen.add(str(path))
                     yield str(path)
